@@ -113,6 +113,19 @@ MUTANTS = [
      r"(print_call_ret\(color_mode, cf\.clone\(\), ret, should_colorize, method, &args\)\?)", r"\1;\n            break;", {"C20"}),
     ("cli-error-reply-exit-ok", "varlink-cli/src/main.rs",
      r"(fn print_call_ret\(.*?)\}\)\?;\s*println!", r"\1}).unwrap_or_default();\n\n    println!", {"C20"}),
+    ("cert-step-compare-inverted", "varlink-certification/src/main.rs", r"if context\.test != test \{", "if context.test == test {", {"C19"}),
+    ("cert-step-not-advanced", "varlink-certification/src/main.rs", r"context\.test = next_test\.into\(\);", "", {"C19"}),
+    ("cert-unknown-id-accepted", "varlink-certification/src/main.rs",
+     r"(fn check_client_id\(&mut self.*?\}\s*\}\s*)_ => false,", r"\1_ => true,", {"C19"}),
+    ("cert-test05-next-step-typo", "varlink-certification/src/main.rs",
+     r'check_client_id\(&client_id, "Test05", "Test06"\)', 'check_client_id(&client_id, "Test05", "Test05")', {"C19"}),
+    ("cert-test08-gate-names-test07", "varlink-certification/src/main.rs",
+     r'check_client_id\(&client_id, "Test08", "Test09"\)', 'check_client_id(&client_id, "Test07", "Test09")', {"C19"}),
+    ("cert-end-gate-does-not-return", "varlink-certification/src/main.rs",
+     r'(check_client_id\(&client_id, "End", "End"\) \{\s*)return call\.reply_client_id_error\(\);', r"\1call.reply_client_id_error()?;", {"C19"}),
+    ("cert-expiry-removes-front-of-table", "varlink-certification/src/main.rs",
+     r"if instant\.elapsed\(\)\.as_secs\(\) > self\.max_lifetime \{\s*self\.contexts\.remove\(client_id\);",
+     "if instant.elapsed().as_secs() > self.max_lifetime {\n                        self.contexts.insert(client_id.clone(), TestContext { test: \"Test01\".into() });", {"C19"}),
 ]
 
 
